@@ -36,6 +36,10 @@ def write_workspace(root, cases, feature, shard_fn=None, order_rng=None, as_depe
     if order_rng is not None:
         for cs in shards.values():
             order_rng.shuffle(cs)
+    # the family whose members share every name: ascending by text in the first run, descending in a re-run, so that the first
+    # invocation of each group of same-named items is guaranteed to differ between the two histories (a shuffle repeats it by chance)
+    if "sameproc" in shards:
+        shards["sameproc"].sort(key=lambda c: (c.item, c.attr), reverse=order_rng is not None)
     index = {}
     for name, cs in shards.items():
         d = os.path.join(root, name)
